@@ -92,32 +92,35 @@ def expected_lines(c, r):
     return ["<class %s>" % r["kind"], "".join(str(x) for x in r["msg"])]
 
 
-def main(tier, seed):
-    rep = Report(PROP, tier, seed, "model_checking")
-    rng = random.Random(seed)
-    bins = [("dev", build_harness("dev"))] + ([("release", build_harness("release"))] if tier == "thorough" else [])
+def collect_cases(rep, tier, rng, limit=None, tag="c13"):
+    """every case Strings.tla enumerates (as TLC initial states) with the result the specification predicts"""
     cases = []
     states = trans = 0
     for group in ("A", "B", "C"):
         cfg = "Strings_%s.cfg" % group
         if tier == "thorough":
-            path = os.path.join(vlib.WORK, "cfg", "Strings_%s_t.cfg" % group)
+            path = os.path.join(vlib.WORK, "cfg", "Strings_%s_t_%s.cfg" % (group, tag))
             os.makedirs(os.path.dirname(path), exist_ok=True)
             open(path, "w").write(open(os.path.join(vlib.SPEC, cfg)).read().replace("MaxChars = 2", "MaxChars = 3"))
             cfg = path
         got = []
-        res = run_tlc("MC_Strings", cfg, workers=12, timeout=3000, keep_lines=False, tag="c13" + group,
+        res = run_tlc("MC_Strings", cfg, workers=12, timeout=3000, keep_lines=False, tag=tag + group,
                       on_line=lambda t, o: got.append(o) if t == "CASE" else None)
         if res.violation:
             rep.violation("Strings.tla: TLC reports\n" + res.violation[:1500], {"tlc": res.violation})
         states += res.distinct
         trans += res.generated
-        limit = 40000 if tier == "quick" else 400000
-        if len(got) > limit:
+        lim = limit or (40000 if tier == "quick" else 400000)
+        if len(got) > lim:
             rng.shuffle(got)
-            got = got[:limit]
+            got = got[:lim]
         cases += got
-        log("[c13] group %s: %d cases (TLC %d states)" % (group, len(got), res.distinct))
+        log("[%s] Strings.tla group %s: %d cases (TLC %d states)" % (tag, group, len(got), res.distinct))
+    return cases, states, trans
+
+
+def replay_cases(rep, bins, cases):
+    """one implementation run per case: the printed result / error class and message must be exactly what Strings.tla says; the host must survive"""
     ncmp = 0
     for bname, binary in bins:
         items = [{"id": i, "main": case_src(x["c"]), "gc": "default"} for i, x in enumerate(cases)]
@@ -129,13 +132,20 @@ def main(tier, seed):
                               {"case": x["c"], "source": case_src(x["c"])})
                 continue
             run = r["runs"][0]
-            got = []
-            for s in run.get("out", []):
-                got += s.split("\n") if False else [s]
+            got = list(run.get("out", []))
             if not run["ok"] or got != want:
-                rep.violation("%s build: %s  -> spec %r impl %r %s" % (bname, case_src(x["c"]).split("\n")[1 if x["c"]["op"] != "iterate" else 1], want, got,
+                rep.violation("%s build: %s  -> spec %r impl %r %s" % (bname, case_src(x["c"]).split("\n")[1], want, got,
                                                                      "" if run["ok"] else run.get("messages")),
                               {"case": x["c"], "source": case_src(x["c"]), "spec": want, "impl": run})
+    return ncmp
+
+
+def main(tier, seed):
+    rep = Report(PROP, tier, seed, "model_checking")
+    rng = random.Random(seed)
+    bins = [("dev", build_harness("dev"))] + ([("release", build_harness("release"))] if tier == "thorough" else [])
+    cases, states, trans = collect_cases(rep, tier, rng)
+    ncmp = replay_cases(rep, bins, cases)
     # conversion to and from numbers: NumFormat.tla (exact doubles, exact decimal expansions) on the boundary numbers, random patterns and short texts
     from checks import c19
     nconv, cstates, nnum, ntext = c19.conversion_layer(rep, bins, tier, seed)
